@@ -94,7 +94,13 @@ func runPlan(t *testing.T, pl any) *simcore.Result {
 							if rn.failed() {
 								return
 							}
-							if v := rn.read(name, rd, false); v != nil {
+							var v *simcore.Violation
+							if rd.Kind >= 8 {
+								v = rn.hread(name, rd, false)
+							} else {
+								v = rn.read(name, rd, false)
+							}
+							if v != nil {
 								rn.fail(v)
 								return
 							}
@@ -221,5 +227,11 @@ func (rn *runner) quiescentChecks() *simcore.Violation {
 	if v := rn.checkTree("at the end of the phase"); v != nil {
 		return v
 	}
-	return rn.sweepAll("M")
+	if v := rn.sweepAll("M"); v != nil {
+		return v
+	}
+	if rn.p.K.Indexing {
+		return rn.historicSweep()
+	}
+	return nil
 }
